@@ -507,7 +507,7 @@ theorem init_invW (e : Env) (a : Auc) (b : Bank) (r : Option Int) (hs : Start e 
 
 /-- **custody of the debt side, for every history** — no hypothesis on the limit bids or the initiator: any number of bidders may
 wait at one premium (D7), the collateral may be exhausted by a limit fill (D24), the reserve may be short (D23), the app may be
-under emergency shutdown (`TriggerEsm` may run any number of times, D35).  While the auction is open, what the bidders paid is in
+under emergency shutdown (`TriggerEsm` may run any number of times, D39).  While the auction is open, what the bidders paid is in
 the module account except for what `TriggerEsm` sent away (`esmOut`); once it is closed the module account holds, beyond what is
 not this auction's and the booked fees, exactly `paid + need − target ≥ 0`: what was collected (and asked from the reserve) beyond
 the target — 0 under the hypotheses of `close_custody_accounted`, the second collection of D7 otherwise — minus the reserve draw
